@@ -134,7 +134,22 @@ BadSendActs(S) == UNION {
                             "data", { <<"ok">>, <<>> }), "direct", {TRUE, FALSE}) ELSE {})
     : c \in Chains }
 
-Adversarial(S) ==
+\* Sends exactly on each guard's boundary (consensus time/height of the client's latest state, the sender's own
+\* block time, the 24 h cap), v2 sends also as direct handler calls (a rejected handler must leave nothing behind).
+SendEdgeActs(S) == UNION {
+      LET lt == CpTime(S, c, Latest(S, c))      \* consensus time of the latest state
+          lh == Latest(S, c)
+          t1 == S.now + 1 + Skew(c)              \* own block time if dt = 1
+      IN
+      (IF V1 THEN With(With(With(Base(c, "SendV1"), "toH", {0, lh, lh + 1, lh + 5}), "toT", {0, lt, lt + 1, lt + 9}),
+                       "data", { <<"ok">> }) ELSE {})
+      \cup (IF V2 THEN With(With(With(Base(c, "SendV2"),
+                            "toT", { lt \div 2, (lt \div 2) + 1, t1 \div 2, (t1 \div 2) + 1, (t1 \div 2) + 2,
+                                     (t1 + DAY_TICKS) \div 2, ((t1 + DAY_TICKS) \div 2) + 1, (lt \div 2) + 9 }),
+                            "data", { <<"ok">> }), "direct", {TRUE, FALSE}) ELSE {})
+    : c \in Chains }
+
+Adversarial(S) == SendEdgeActs(S) \cup
     UpdateActs(S, TRUE)
     \cup RecvActs(S, TRUE) \cup AckActs(S, TRUE)
     \cup TimeoutActs(S, TRUE) \cup CloseActs(S, TRUE)
